@@ -68,7 +68,10 @@ pub struct Interpreter<TStdlib: Stdlib, TStdIn: Input, TStdOut: Printer, TLpt1: 
     /// Temporarily holds byref values that are to be copied back to the calling context
     by_ref_stack: VecDeque<Variant>,
 
-    function_result: Option<Variant>,
+    /// Holds the results of functions that have returned but have not been
+    /// consumed yet. It is a stack: while the by-ref arguments of a call are
+    /// copied back, evaluating their path can call further functions.
+    function_result: Vec<Variant>,
 
     value_stack: Vec<Variant>,
 
@@ -155,11 +158,11 @@ impl<TStdlib: Stdlib, TStdIn: Input, TStdOut: Printer, TLpt1: Printer> Interpret
     }
 
     fn take_function_result(&mut self) -> Option<Variant> {
-        self.function_result.take()
+        self.function_result.pop()
     }
 
     fn set_function_result(&mut self, v: Variant) {
-        self.function_result = Some(v);
+        self.function_result.push(v);
     }
 
     fn var_path_stack(&mut self) -> &mut VecDeque<Path> {
@@ -289,7 +292,7 @@ impl<TStdlib: Stdlib, TStdIn: Input, TStdOut: Printer, TLpt1: Printer>
             user_defined_types,
             var_path_stack: VecDeque::new(),
             by_ref_stack: VecDeque::new(),
-            function_result: None,
+            function_result: vec![],
             value_stack: vec![],
             last_error_address: None,
             last_error_code: None,
